@@ -16,7 +16,9 @@ RULE = ("scenario = start state {empty, p1->X, p1,p2->X, X unreferenced, p1->mis
         "condition-variable operation: ALL schedules with <= c preemptions (c=1 quick, 2 thorough; switches at "
         "blocking points are free) + seeded random walks; triples by PCT(d=3) and random walks; plus random / PCT "
         "schedules with STATEMENT-level yield points (sys.monitoring LINE events in filehashstore.py, ~900 points "
-        "per two-call run) on 96 (quick) / all (thorough) pair scenarios. Oracle: (per-call "
+        "per two-call run) on 96 (quick) / all (thorough) pair scenarios, and 8 (quick) / 120 (thorough) schedules per pair "
+        "scenario with yield points at the statements of the synchronisation code only, switching there with "
+        "probability 0.2-0.5 (FocusChooser). Oracle: (per-call "
         "outcome, final directory abstraction) must equal that of some sequential order of the same calls run on "
         "the same code (a store_object rejected 'already in progress' while another store_object for the same pid "
         "is in the scenario is the one extra outcome allowed); no deadlock. distinct_nontrivial = distinct "
@@ -52,10 +54,12 @@ def shards(tier, seed):
         for c, s in zip(chunk(triples, n), seeds[n * 2:]):
             out.append((c, 0, 10, 10, s, 1))
         for c, s in zip(chunk(line_scns[:96], n), split_seeds(seed + 71, n)):
-            out.append(("statement-level", c, 8, s))
+            out.append(("statement-level", c, 8, 0, s))
+        for c, s in zip(chunk(line_scns, n * 2), split_seeds(seed + 72, n * 2)):
+            out.append(("statement-level", c, 0, 8, s))
     else:
         for c, s in zip(chunk(line_scns, n * 2), split_seeds(seed + 71, n * 2)):
-            out.append(("statement-level", c, 60, s))
+            out.append(("statement-level", c, 60, 120, s))
         for c, s in zip(chunk(pairs, n * 4), seeds):
             out.append((c, 2, 30, 0, s, None))
         for c, s in zip(chunk(triples, n * 2), split_seeds(seed + 7, n * 2)):
@@ -79,8 +83,8 @@ def run_shard(*args):
         res.counters["thread_calls_recorded"] = res.counters.pop("process_calls_recorded", 0)
         return res
     if args[0] == "statement-level":
-        _k, scns, n_line, sub_seed = args
-        return P.run_scenarios(scns, 0, 0, 0, sub_seed, SYMPTOMS, n_line=n_line, skip_dfs=True)
+        _k, scns, n_line, n_sync, sub_seed = args
+        return P.run_scenarios(scns, 0, 0, 0, sub_seed, SYMPTOMS, n_line=n_line, n_sync=n_sync, skip_dfs=True)
     scns, bound, n_random, pct, sub_seed, budget = args
     return P.run_scenarios(scns, bound, n_random, pct, sub_seed, SYMPTOMS, budget=budget)
 
